@@ -3,6 +3,7 @@
 from __future__ import annotations
 
 from .. import kir
+from ..rules import r_live
 from ..report import Finding
 from ..rules.world import array_key
 from ..terms import T, affine, pc_literals, show, subterms
@@ -190,7 +191,11 @@ def run(db, res, tier):
       res.ob(okp, f"{lc.name}|JT-force", Finding("R-SIGN.8", f"{lc.name}|qfrc_constraint|JT-pairing", f"qfrc_constraint accumulates `{show(a.value)[:120]}`: J and force are not paired on the same row / written on J's column", a.loc))
   ntr = check_change_tracking(db, res)
   res.floor("change-tracking increments", ntr, 2)
-  res.rule_text = "R-TRACK: in the constraint-update kernel every counter the incremental (fast) path consults to decide whether qfrc_constraint / the gradient must be rebuilt is incremented under exactly the change condition of the value it tracks (state_changed: old efc.state != stored efc.state; quad_changed: (old == QUADRATIC) != (new == QUADRATIC)) and nothing stronger; Path-sensitive sign analysis of _eval_constraint: for every return vec3(force, state, cost) the (state, force form, path condition) triple is admissible - SATISFIED => 0; LINEARNEG => +frictionloss under jaref <= -rf; LINEARPOS => -frictionloss under jaref >= rf; friction QUADRATIC => -D*jaref under -rf < jaref < rf; limit/contact QUADRATIC => -D*jaref under jaref < 0; D is stored as x/max(., MJ_MINVAL) > 0; efc.force/state are written only by the constraint-update kernel from _eval_constraint; qfrc_constraint pairs J[r, j] with force[r] and lands on dof j"
+  # qfrc_constraint = J^T force needs every cell of qfrc_constraint (re)defined by each solve: the sparse rebuild skips
+  # worlds without rows, which only the init kernel's complement write covers
+  ncomp = r_live.check_guard_complements(res, db, ["forward.forward"], fields={"Data.qfrc_constraint"})
+  res.floor("skip/complement-writer launch pairs for qfrc_constraint (R-LIVE.9)", ncomp, 4)
+  res.rule_text = "R-LIVE.9: on every host path that launches the sparse qfrc_constraint rebuild (which skips worlds whose counter is zero) the complement writer (init kernel storing qfrc_constraint under nefc == 0, switched by a factory flag) was launched on the same array with its flag implied by the path; R-TRACK: in the constraint-update kernel every counter the incremental (fast) path consults to decide whether qfrc_constraint / the gradient must be rebuilt is incremented under exactly the change condition of the value it tracks (state_changed: old efc.state != stored efc.state; quad_changed: (old == QUADRATIC) != (new == QUADRATIC)) and nothing stronger; Path-sensitive sign analysis of _eval_constraint: for every return vec3(force, state, cost) the (state, force form, path condition) triple is admissible - SATISFIED => 0; LINEARNEG => +frictionloss under jaref <= -rf; LINEARPOS => -frictionloss under jaref >= rf; friction QUADRATIC => -D*jaref under -rf < jaref < rf; limit/contact QUADRATIC => -D*jaref under jaref < 0; D is stored as x/max(., MJ_MINVAL) > 0; efc.force/state are written only by the constraint-update kernel from _eval_constraint; qfrc_constraint pairs J[r, j] with force[r] and lands on dof j"
   res.explanation = "Values are touched only through comparisons, so each return is decided from its syntactic path condition. Not decided: elliptic cone membership (numeric), equality of qfrc_constraint on the incremental path."
   res.extra["analysed"] = {"returns": n, "kinds": sorted(f"{a}:{b}" for a, b in kinds)}
   res.assumptions += ["efc.D > 0 whenever the impedance/reference computation of _efc_row yields finite values", "mu > 0, frictionloss >= 0 (MuJoCo compiler invariants)"]
